@@ -12,7 +12,9 @@ import (
 	rb "verifharness/ref/bech32"
 )
 
-func init() { core.Register(core.Check{ID: "C04", Level: "exploration", Run: runC04}) }
+func init() {
+	core.Register(core.Check{ID: "C04", Level: "exploration", Run: func(c *core.Ctx) { runC04(c); reentrancyPass(c, "C04") }})
+}
 
 func c04Class(s string) string {
 	for i := 0; i < len(s); i++ {
